@@ -389,6 +389,8 @@ class World:
 
     def take_snapshot(self, label="") -> dict:
         snap = adapter.snapshot(self.at)
+        seq = self.trace.add("user.snapshot", k=label)
+        snap["_seq"] = seq
         self.snapshots.append((self.loop._vtime, label, snap))
         return snap
 
